@@ -555,6 +555,18 @@ func (mf *MultiFileAppendable) DiscardUpto(off int64) error {
 }
 
 func (mf *MultiFileAppendable) appendableFor(off int64) (appendable.Appendable, error) {
+	for {
+		app, err := mf.tryAppendableFor(off)
+		if errors.Is(err, cache.ErrKeyNotFound) {
+			// the appendable was opened but a concurrent reader evicted it from the
+			// cache before it could be acquired: it needs to be opened again
+			continue
+		}
+		return app, err
+	}
+}
+
+func (mf *MultiFileAppendable) tryAppendableFor(off int64) (appendable.Appendable, error) {
 	mf.mutex.Lock()
 
 	if mf.closed {
